@@ -43,6 +43,9 @@ def install():
   _orig.update(rename=fio.rename, remove=fio.remove, rmtree=fio.rmtree, GFile=fio.GFile, shutil_rmtree=shutil.rmtree, os_rename=os.rename, os_mkdir=os.mkdir)
 
   def rename(src, dst, overwrite=False):
+    import threading, time
+    if threading.current_thread() is not threading.main_thread():
+      time.sleep(0.05)       # an async save is still in flight when the next save_checkpoint call starts
     INJ.tick('rename')
     return _orig['rename'](src, dst, overwrite=overwrite)
 
@@ -179,8 +182,11 @@ def run_history(h, hid):
     try:
       C.save_checkpoint(d, target, step, prefix=prefix, keep=sv['keep'], overwrite=sv['overwrite'], keep_every_n_steps=sv['every'],
                         async_manager=am)
-      if am:
+      last = sv is h['saves'][-1]
+      if am and (last or not h.get('overlap')):
         am.wait_previous_save()
+        if am.save_future is not None:
+          am.save_future.result()
       res['outcome'] = 'saved'
     except Crash:
       res['outcome'] = 'crash'
@@ -191,8 +197,15 @@ def run_history(h, hid):
     res['ops'] = list(INJ.log)
     res['nops'] = INJ.count
     res['step_str'] = str(step)
-    res['snapshot'] = snapshot(d, prefix)
-    res['api'] = api_view(d, prefix)
+    settled = not (am and h.get('overlap')) or sv is h['saves'][-1]
+    if am and h.get('overlap') and sv is h['saves'][-1]:
+      try:
+        am.wait_previous_save()
+      except BaseException as e:  # pylint: disable=broad-except
+        res['async_exc'] = type(e).__name__
+    res['settled'] = settled
+    res['snapshot'] = snapshot(d, prefix) if settled else []
+    res['api'] = api_view(d, prefix) if settled else {'latest': None, 'steps': [], 'restore_latest': None}
     out.append(res)
     if am and res['outcome'] == 'crash':
       am = C.AsyncManager()
